@@ -28,6 +28,9 @@ type Policy struct {
 	// unqualified sets listed in rotated order; others: same as Build). Parties of a protocol each
 	// construct their own access-structure object, as separate processes would.
 	BuildVariant func(k int) (accessstructures.Monotone, error)
+	// Spec, when set, is the harness-side reference semantics of the DESCRIPTION the policy was
+	// built from (independent of the library's normalisation of it): is this set qualified?
+	Spec func(set []sharing.ID) bool
 }
 
 // Variant returns the k-th equivalent construction of the policy.
@@ -60,7 +63,8 @@ func thresholdPolicy(t int, ids []sharing.ID) Policy {
 	return Policy{Name: fmt.Sprintf("threshold(%d,%s)", t, idsStr(ids)), Family: "threshold", IDs: ids,
 		Build: func() (accessstructures.Monotone, error) {
 			return threshold.NewThresholdAccessStructure(uint(t), idSet(ids...))
-		}}
+		},
+		Spec: func(set []sharing.ID) bool { return countMembers(set, ids) >= t }}
 }
 
 func unanimityPolicy(ids []sharing.ID) Policy {
@@ -68,7 +72,8 @@ func unanimityPolicy(ids []sharing.ID) Policy {
 	return Policy{Name: fmt.Sprintf("unanimity(%s)", idsStr(ids)), Family: "unanimity", IDs: ids,
 		Build: func() (accessstructures.Monotone, error) {
 			return unanimity.NewUnanimityAccessStructure(idSet(ids...))
-		}}
+		},
+		Spec: func(set []sharing.ID) bool { return countMembers(set, ids) == len(ids) }}
 }
 
 // cnfPolicy takes maximal unqualified sets as bitmasks over ids.
@@ -94,7 +99,42 @@ func cnfPolicy(masks []int, ids []sharing.ID) Policy {
 	}
 	return Policy{Name: "cnf(unq=" + strings.Join(parts, "") + " over " + idsStr(ids) + ")", Family: "cnf", IDs: ids,
 		Build:        func() (accessstructures.Monotone, error) { return build(0) },
-		BuildVariant: build}
+		BuildVariant: build,
+		// qualified ⇔ contained in none of the listed unqualified sets
+		Spec: func(set []sharing.ID) bool {
+			for _, m := range masks {
+				if countMembers(set, maskIDs(m, ids)) == len(dedupIDs(set)) {
+					return false
+				}
+			}
+			return true
+		}}
+}
+
+// countMembers counts the distinct elements of set that belong to universe.
+func countMembers(set, universe []sharing.ID) int {
+	n := 0
+	for _, x := range dedupIDs(set) {
+		for _, u := range universe {
+			if x == u {
+				n++
+				break
+			}
+		}
+	}
+	return n
+}
+
+func dedupIDs(set []sharing.ID) []sharing.ID {
+	seen := map[sharing.ID]bool{}
+	var out []sharing.ID
+	for _, x := range set {
+		if !seen[x] {
+			seen[x] = true
+			out = append(out, x)
+		}
+	}
+	return out
 }
 
 func maskIDs(m int, ids []sharing.ID) []sharing.ID {
@@ -253,6 +293,8 @@ func PolicyCorpus(tier string, seed int64) []Policy {
 			ps = append(ps, unanimityPolicy(ids))
 		}
 	}
+	// the largest identifier a CNF supports (64) in an antichain where it decides maximality
+	ps = append(ps, cnfPolicy([]int{0b0011, 0b1001, 0b1100}, []sharing.ID{1, 2, 3, 64}))
 	// CNF: all antichains on 2..3 parties, sample on 4 (all in thorough), sample on 5 (thorough)
 	for n := 2; n <= maxN; n++ {
 		acs := antichains(n)
